@@ -93,7 +93,7 @@ def has_bytes(ty):
 def make_cases(ctx):
     cases = []
     r = ctx.sub_rng('sys')
-    g = Gen(r, {'neg_timedelta': True, 'nonfinite': False})
+    g = Gen(r, {'neg_timedelta': True, 'nonfinite': False, 'odd_offsets': True})   # sub-minute UTC offsets (repaired F43) stay in
     items = systematic_types(g, 2 if ctx.tier == 'quick' else 3, leaves=C01_LEAVES)
     if ctx.tier != 'quick':
         d3 = [it for it in items if it[0].count('<') == 2]
@@ -119,7 +119,7 @@ def make_cases(ctx):
                           'labels': {root['fields'][0]['name']: lab}, 'src': 'single'})
     r2 = ctx.sub_rng('rand')
     for j in range(80 if ctx.tier == 'quick' else 2000):
-        g2 = Gen(r2, {'neg_timedelta': True, 'nonfinite': r2.random() < 0.2})
+        g2 = Gen(r2, {'neg_timedelta': True, 'nonfinite': r2.random() < 0.2, 'odd_offsets': r2.random() < 0.3})
         nf = r2.choice([1, 2, 3, 4])
         tys = []
         while len(tys) < nf:
